@@ -131,6 +131,18 @@ def corpus():
         yield from _ins("b", 48)
     add("rejected-calls", h_bad)
 
+    # a bulk insert that raises part-way (few rows, so the count bound is not reached; the
+    # accumulating variant is the finding in corpus/c06_partial_bulk_failure.json)
+    def h_partial(r):
+        yield _create("b")
+        yield from _ins("b", 3)
+        yield (MS, 0, ("insert_many_bad", "b", (1,), 4))
+        yield from _ins("b", 2)
+        yield (MS, 0, ("insert_many_bad", "b", (), 0))
+        yield (MS, 0, ("insert_many_bad", "nope", (2,), 3))
+        yield from _ins("b", 38)       # 49 pending, 45 counted: the next 6 inserts would cross 50
+    add("partial-bulk-failure-small", h_partial)
+
     # age: one write at exactly gap after the flush, then another 1 ms later
     for gap in (9_999_000, 9_999_999, 10_000_000, 10_000_001, 10_001_000, 30 * S, 3600 * S):
         for kind in ("insert_one", "delete", "replace", "replace_last", "insert_many"):
@@ -189,6 +201,22 @@ def corpus():
         yield (20 * S, 0, ("delete", "b", 1))
         yield (MS, 0, ("update_bucket", "b", 1))
     add("eager", h_eager, lazy=False)
+    return out + enabled_corpus_files()
+
+
+def enabled_corpus_files():
+    """corpus/c06_*.json: concrete histories (same format as the replays); only those marked
+    "enabled": true take part in the checks (a witness of an open finding is kept disabled
+    until the orchestrator has fixed /repo or registered the finding)."""
+    import glob
+    import json
+    import os
+    out = []
+    here = os.path.join(os.path.dirname(os.path.dirname(os.path.abspath(__file__))), "corpus")
+    for f in sorted(glob.glob(os.path.join(here, "c06_*.json"))):
+        o = json.load(open(f))
+        if o.get("enabled"):
+            out.append(("corpus:" + os.path.basename(f), o["history"]["lazy"], o["history"]["steps"]))
     return out
 
 
